@@ -165,8 +165,20 @@ void probe(Oomd::OomdContext& ctx, const std::string& /*id*/, Sim& sim) {
   g_obs[t] = rec;
 }
 
-int64_t bigOrSmall(int maxlog2) {
-  return pages(maxlog2);
+// per-file faults (C10's "the affected statistic is reported as
+// unavailable"): any control file an accessor reads, in any of the three modes
+const std::vector<std::string> kFaultFiles = {
+    "memory.pressure", "io.pressure", "memory.stat", "io.stat", "memory.current", "memory.swap.current",
+    "memory.swap.max", "memory.low", "memory.min", "memory.high", "memory.max", "memory.high.tmp",
+    "cgroup.stat", "cgroup.events", "memory.oom.group"};
+void genFaults(Cg& c, int pct) {
+  if (!P(pct)) return;
+  int n = P(70) ? 1 : R(2, 4);
+  for (int i = 0; i < n; i++) {
+    std::string f = oneOf(kFaultFiles);
+    if (c.path.empty() && f != "memory.stat" && f != "io.stat" && f != "cgroup.stat") continue;
+    c.faults[f] = oneOf(std::vector<std::string>{"absent", "empty", "unreadable"});
+  }
 }
 
 Json::Value gen() {
@@ -218,6 +230,9 @@ Json::Value gen() {
     if (P(10)) c.mem_low = kMax;
     if (P(10)) c.mem_min = kMax;
   }
+  bool withFaults = P(40);
+  if (withFaults)
+    for (auto& c : w.cgs) genFaults(c, c.path.empty() ? 10 : 30);
   if (big) {
     w.host.swaps.clear();
     w.host.swaps.push_back({R64(int64_t(1) << 22, int64_t(1) << 34), 0});
@@ -273,6 +288,14 @@ Json::Value gen() {
         }
         c->mem_psi = genPsi(c->mem_psi.legacy);
         if (P(30)) c->swap_current = pages(wg.prof.maxlog2);
+        if (withFaults) {
+          // a fault appears, changes or heals between two ticks
+          if (!c->faults.empty() && P(40)) {
+            c->faults.erase(c->faults.begin());
+          } else {
+            genFaults(*c, 30);
+          }
+        }
         Op op;
         op.op = "set";
         op.cg = *c;
@@ -352,7 +375,7 @@ Verdict run(const Json::Value& sc) {
   int nticks = sc["ticks"].size();
   // inode of each path per tick, from the observations' world: path -> inode
   std::map<uint64_t, Json::Value> prevById; // previous tick's observation by id
-  bool recreated = false, deepProt = false;
+  bool recreated = false, deepProt = false, faulted = false, healed = false;
   for (int t = 0; t < nticks && v.ok; t++) {
     if (t >= (int)g_obs.size() || !g_obs[t].isObject()) {
       v.fail("probe did not run at tick " + std::to_string(t));
@@ -394,6 +417,11 @@ Verdict run(const Json::Value& sc) {
             (void)kv;
           }
         }
+      }
+      if (!c.faults.empty()) faulted = true;
+      if (c.faults.empty() && t > 0) {
+        const Cg* pc = R.worlds[t - 1].find(c.path);
+        if (pc && !pc->faults.empty() && h.have) healed = true;
       }
       Json::Value e = vps::expectCg(w, c.path, dev, h, oid);
       for (auto& f : e.getMemberNames()) {
@@ -448,7 +476,9 @@ Verdict run(const Json::Value& sc) {
     }
     prevById = nowById;
   }
-  if (recreated || deepProt) v.nontrivial = true;
+  if (recreated || deepProt || faulted) v.nontrivial = true;
+  if (faulted) v.labels.push_back("file_fault");
+  if (healed) v.labels.push_back("fault_healed");
   if (recreated) v.labels.push_back("recreated");
   if (deepProt) v.labels.push_back("deep_protection");
   if (sc.get("dt_unknown", false).asBool()) v.labels.push_back("dt_unknown");
